@@ -95,10 +95,10 @@ stubset('bvspec', [
     ('<simple_sds::bit_vector::BitVector as simple_sds::ops::Rank>::rank', 'stubs_bv::bv_rank'),
     ('<simple_sds::bit_vector::BitVector as simple_sds::ops::Select>::select', 'stubs_bv::bv_select'),
     ('<simple_sds::bit_vector::BitVector as simple_sds::ops::SelectZero>::select_zero', 'stubs_bv::bv_select_zero'),
-    ('<simple_sds::bit_vector::BitVector as simple_sds::ops::Rank>::enable_rank', 'stubs_bv::bv_enable_noop'),
-    ('<simple_sds::bit_vector::BitVector as simple_sds::ops::Select>::enable_select', 'stubs_bv::bv_enable_noop'),
-    ('<simple_sds::bit_vector::BitVector as simple_sds::ops::SelectZero>::enable_select_zero', 'stubs_bv::bv_enable_noop'),
-    ('<simple_sds::bit_vector::BitVector as simple_sds::ops::PredSucc>::enable_pred_succ', 'stubs_bv::bv_enable_noop'),
+    ('<simple_sds::bit_vector::BitVector as simple_sds::ops::Rank>::enable_rank', 'stubs_bv::bv_enable_rank'),
+    ('<simple_sds::bit_vector::BitVector as simple_sds::ops::Select>::enable_select', 'stubs_bv::bv_enable_select'),
+    ('<simple_sds::bit_vector::BitVector as simple_sds::ops::SelectZero>::enable_select_zero', 'stubs_bv::bv_enable_select_zero'),
+    ('<simple_sds::bit_vector::BitVector as simple_sds::ops::PredSucc>::enable_pred_succ', 'stubs_bv::bv_enable_pred_succ'),
 ])
 
 
